@@ -130,13 +130,20 @@ def lean_audit(prop: str) -> Tuple[List[Dict[str, Any]], str]:
 
 
 def lean_source_files(prop: str) -> List[Path]:
-    files = []
-    for sub in ("Model", "Spec", "Lemmas", "Props", "Drv"):
-        d = LEAN_DIR / "OdcGeo" / sub
-        if d.is_dir():
-            files += sorted(d.glob("*.lean"))
-    files += sorted((LEAN_DIR / "Drivers").glob("*.lean"))
-    return files
+    """The project files in the import closure of the property's theorem file and driver."""
+    roots = [LEAN_DIR / "OdcGeo" / "Props" / f"{prop}.lean", LEAN_DIR / "Drivers" / f"{prop}.lean"]
+    seen: Dict[Path, None] = {}
+    todo = [r for r in roots if r.exists()]
+    while todo:
+        f = todo.pop()
+        if f in seen:
+            continue
+        seen[f] = None
+        for m in re.finditer(r"^import\s+(OdcGeo(?:\.\w+)+)\s*$", f.read_text(), re.M):
+            q = LEAN_DIR / (m.group(1).replace(".", "/") + ".lean")
+            if q.exists():
+                todo.append(q)
+    return sorted(seen)
 
 
 def strip_comments(text: str) -> str:
@@ -166,9 +173,9 @@ def strip_comments(text: str) -> str:
     return "".join(out)
 
 
-def forbidden_tokens() -> List[str]:
+def forbidden_tokens(prop: str) -> List[str]:
     hits = []
-    for f in lean_source_files(""):
+    for f in lean_source_files(prop):
         code = strip_comments(f.read_text())
         for ln, line in enumerate(code.splitlines(), 1):
             if FORBIDDEN.search(line):
@@ -290,7 +297,7 @@ class Run:
         for name in lock:
             if name.startswith(f"OdcGeo.{self.prop}.") and name not in {t["name"] for t in thms}:
                 self.bad_thms.append(f"{name}: pinned in statements.lock but missing")
-        hits = forbidden_tokens()
+        hits = forbidden_tokens(self.prop)
         if hits:
             self.bad_thms.append("forbidden tokens: " + "; ".join(hits[:5]))
         if not thms:
